@@ -47,10 +47,18 @@ Helpers    == LET s == Split(bs) ss == SplitString(bs) sl == SplitList(bs) su ==
                            /\ First(TUint(8), bs).v.b = su.x)
               /\ (First(TUint(8), bs).ok => su.ok)
 
+(* The typed read methods of rlp.Stream, each on a fresh stream over the string: the first *)
+(* value only, trailing bytes are not an error, the number of bytes consumed is observed.  *)
+(* Uint64 Uint32 Uint16 Uint8 Bool BigInt ReadUint256 Bytes Raw ReadBytes(2) and a        *)
+(* List / Uint64.. / ListEnd loop.                                                        *)
+StreamOps == << TUint(8), TUint(4), TUint(2), TUint(1), TBool, TBig, TU256, TBytes, TRaw, TArr(2), TList(TUint(8)) >>
+
 (* ------------------------------- cases --------------------------------- *)
 Res(r) == IF r.ok THEN [ok |-> TRUE, v |-> r.v] ELSE [ok |-> FALSE, c |-> r.c]
 Case == [in |-> pre, fill |-> fill,
          views |-> [i \in 1..Len(Views) |-> Res(Top(Views[i], bs))],
+         stream |-> [i \in 1..Len(StreamOps) |-> LET f == First(StreamOps[i], bs) IN
+                                                  IF f.ok THEN [ok |-> TRUE, v |-> f.v, n |-> f.n] ELSE f],
          first |-> LET f == First(TAny, bs) IN IF f.ok THEN [ok |-> TRUE, v |-> f.v, n |-> f.n] ELSE f,
          kind  |-> LET h == HdrLax(bs, 1, Len(bs)) IN
                    IF h.ok THEN [ok |-> TRUE, k |-> IF h.h = 0 THEN "byte" ELSE IF h.k = "s" THEN "string" ELSE "list",
